@@ -559,6 +559,29 @@ func (w *world) traceScenario(plans [][]planOp) {
 				}
 			}
 		}
+		// whatever a provider Shutdown returned (also a context error), the processors registered at
+		// that time have been told to shut down, and so - eventually - have their exporters
+		if reg != nil && (reg.inv == 0 || (reg.ret != 0 && firstSd != 0 && reg.ret < firstSd)) {
+			unregistered := false
+			for _, e := range evs {
+				if e.kind == "unregister" {
+					unregistered = true
+				}
+			}
+			returned := false
+			for _, o := range w.ops {
+				if o.Kind == "shutdown" && o.Ret != 0 {
+					returned = true
+				}
+			}
+			if returned && !unregistered {
+				if len(p.shutdowns) == 0 {
+					r.Violate(prop, "never-shut-down", "never-shut-down/processor", "provider Shutdown has returned but registered processor %d was never shut down", p.id)
+				} else if p.exp != nil && len(p.exp.shutdowns) == 0 {
+					r.Violate(prop, "never-shut-down", "never-shut-down/trace-exporter", "provider Shutdown has returned and processor %d (%s) was shut down, but its exporter never was", p.id, p.kind)
+				}
+			}
+		}
 		if p.exp != nil && len(p.shutdowns) == 1 && p.shutdowns[0].ret != 0 && p.shutdowns[0].err == nil && len(p.exp.shutdowns) == 0 {
 			r.Violate(prop, "not-shut-down", "not-shut-down/exporter", "processor %d was shut down (nil) but its exporter never was", p.id)
 		}
@@ -719,6 +742,12 @@ func (w *world) metricScenario(plans [][]planOp) {
 	}) {
 		return
 	}
+	for _, o := range w.ops {
+		if o.Kind == "shutdown" && o.Ret != 0 && len(exp.shutdowns) == 0 {
+			r.Violate(prop, "never-shut-down", "never-shut-down/metric-exporter", "MeterProvider.Shutdown has returned (%v) but the periodic reader's exporter was never shut down", o.Err)
+			break
+		}
+	}
 	if len(exp.shutdowns) > 1 {
 		r.Violate(prop, "shutdown-twice", "exporter-shutdown-twice/metric", "the periodic reader's exporter was shut down %d times", len(exp.shutdowns))
 	}
@@ -856,6 +885,17 @@ func (w *world) logScenario(plans [][]planOp) {
 		return out
 	}) {
 		return
+	}
+	for _, o := range w.ops {
+		if o.Kind != "shutdown" || o.Ret == 0 {
+			continue
+		}
+		for i, e := range exps {
+			if len(e.shutdowns) == 0 {
+				r.Violate(prop, "never-shut-down", "never-shut-down/log-exporter", "LoggerProvider.Shutdown has returned (%v) but log exporter %d was never shut down", o.Err, i)
+			}
+		}
+		break
 	}
 	for i, e := range exps {
 		if len(e.shutdowns) > 1 {
